@@ -33,6 +33,43 @@ CHECKS = [
               "iterate, histories shift, the iterate is reset after a failure, the history equals the accepted solutions, and the run ends at the final time.",
          note="check_convergence is overridden by the harness (as the property anticipates); vectors compared through byte-content tokens; dyadic "
               "time-step parameters; quick tier explores scripts with at most one failed solve exhaustively on the small configuration."),
+    dict(id="C05", level=MC, technique="TLC judges every state of a real EquationSystem reached by create/remove histories against "
+         "spec/ref/DofLayoutRef.tla (J_DofLayout); histories trace-validated against spec/sys/DofLayout.tla; design check Impl = Ref",
+         text="All histories of create_variables / remove_variables up to a bounded length over 2 names, 3-4 dof types and 6 domain choices on a "
+              "real md-grid with 4 subdomains (dims 2,1,1,0) and 4 interfaces are executed; in every reached state dofs_of, identify_dof for every "
+              "index, projection_to, and set/get_variable_values (plain and additive; by name, md-variable, atomic variable, shuffled subsets) "
+              "are recorded and TLC compares them with the reference layout (contiguous blocks in subdomain, interface, creation order).",
+         note="Quick tier observes the 60 shallowest states plus a seeded sample of 200 of the reached states; thorough observes all. "
+              "Conformance uses the private block tables (_variable_numbers, _variable_num_dofs) and only yields DRIFT."),
+    dict(id="C35", level=MC, technique="TLC enumerates compressed-storage inputs from spec/ref/SparseOpsEnum.tla and judges the real functions' "
+         "outputs against the dense reference semantics of spec/ref/SparseOps.tla (J_SparseOps, 22 clauses)",
+         text="Every utility named by the property (slicing, merging, zeroing, stacking, block construction, run-length coding, pointer/index "
+              "expansion, block-diagonal indices, Kronecker expansion, optimized storage, copies) is called on all inputs of a bounded lattice of "
+              "csr/csc storage structures (unsorted indices, empty lines, stored zeros; index arrays, masks, ints) plus seeded larger cases; TLC "
+              "checks well-formedness of the result and equality of its dense value with the reference, and that untouched arguments keep their value.",
+         note="Integer data, so all comparisons are exact. Zero-dimension inputs are informational only. Duplicate (row, col) entries are not generated."),
+    dict(id="C37", level=TV, technique="TLC enumerates block structures / unimodular integer blocks / permutations (spec/ref/BlockDiagEnum.tla) and "
+         "checks A * round(X) = I exactly on the real inverters' output (J_BlockDiag)",
+         text="Block-size sequences (sizes 1-3 quick, 1-6 thorough) with integer unimodular blocks (exact integer inverse built alongside) are inverted by "
+              "invert_diagonal_blocks (python and numba paths); row/column-permuted block-diagonal matrices go through "
+              "generate_permutation_to_block_diag_matrix (ValidPerm predicate) and invert_permuted_block_diag_matrix; TLC multiplies back exactly.",
+         note="Results are rounded when within 1e-9 of an integer (otherwise the case fails). A coarser but valid block decomposition is reported as DRIFT, "
+              "since the property only asks that square blocks are exposed. The linear algebra kernels are black boxes (validated per input)."),
+    dict(id="C38", level=MC, technique="TLC enumerates cell-type layouts / export routes / time histories (spec/sys/ExportImport.tla) and judges the "
+         "real Exporter write -> import round trips cell by cell (J_ExportImport); exported block layout compared with the model (DRIFT)",
+         text="All layouts of 1-2 grids with up to 3 (quick) / 5 (thorough) cells over triangle/quad/pentagon (and 3D analogues) are realised as "
+              "hand-built grids in real md-grids (optionally with a 1D fracture and interface), written with Exporter.write_vtu / write_pvd and "
+              "restored with import_state_from_vtu / import_from_pvd / the DataSavingMixin route; TLC checks that every subdomain and interface "
+              "gets back the values written at the latest step and that time information is restored.",
+         note="Two recorded known findings (polyhedron block order in 3D; mixin plain-pvd time used as index) suppress exactly their classes. "
+              "Point data and export_constants_separately are not covered. Quick tier runs workers with NUMBA_DISABLE_JIT=1."),
+    dict(id="C27", level=MC, technique="TLC enumerates ordered sublists of subdomains / interfaces / boundary grids and vector dimensions "
+         "(spec/ref/GridProjectionsFamily.tla) and judges the real projection matrices entry by entry (J_GridProjections)",
+         text="For real md-grids (2D host with crossing fractures and intersection point, 3D host with a fracture, thorough: more fractures and a "
+              "non-matching mortar) every ordered sublist within the bound and nd in 1..3 is given to SubdomainProjections, MortarProjections and "
+              "BoundaryProjection; TLC checks the index maps against the reference (offsets by list order, interleaved vector ordering), "
+              "restriction o prolongation = identity, full list = permutation, mortar blocks at the matching offsets with zero blocks for absent grids.",
+         note="Per-interface scalar projections are read from the real MortarGrid (their correctness is C26); co-dimension-2 interfaces are not generated."),
 ]
 
 _NOT_BUILT = "check not built yet (planned, DESIGN.md section 10); not claimed until its commands are green on the unchanged tree"
